@@ -52,14 +52,17 @@ RowAfter(u, pw, accepted) ==
     ELSE row[u]
 
 Login(u, pw) ==
-    /\ (dbOut => ~AnyAnswers)          \* modelled outage of the store coincides with an outage of the directory
+    \* the store may be out while the directory answers: the directory's word is final all the same, only the record
+    \* cannot be refreshed or evicted then (row' = row)
     /\ LET acc == IF Has("CacheDecidesOnReject") /\ ~(pw = dirPw[u]) /\ AnyAnswers /\ Eff(u).pw = pw THEN TRUE
                   ELSE IF Has("IgnoresExpiry") /\ ~AnyAnswers /\ Eff(u).pw = pw /\ Eff(u).intact THEN TRUE
                   ELSE MustAccept(u, pw)
        IN /\ row' = IF dbOut THEN row ELSE [row EXCEPT ![u] = RowAfter(u, pw, acc)]
           \* the directory's latest word on (u, pw): a rejection withdraws an earlier confirmation
           /\ confirmed' = IF AnyAnswers /\ acc THEN confirmed \cup {<<u, pw>>}
-                          ELSE IF AnyAnswers /\ ~acc THEN confirmed \ {<<u, pw>>} ELSE confirmed
+                          \* (while the store is out a rejection cannot evict - as built: the record stays, and with it what it
+                          \* stands for; the property asks for eviction, not for remembering rejections elsewhere)
+                          ELSE IF AnyAnswers /\ ~acc /\ ~dbOut THEN confirmed \ {<<u, pw>>} ELSE confirmed
           /\ since' = IF AnyAnswers /\ acc THEN [since EXCEPT ![u] = 0] ELSE since
           /\ last' = [op |-> "login", user |-> u, pw |-> pw, accepted |-> acc,
                       allowed |-> AcceptAllowed(u, pw)]
@@ -67,7 +70,7 @@ Login(u, pw) ==
 
 ChangePw(u, pw) == /\ pw # dirPw[u] /\ dirPw' = [dirPw EXCEPT ![u] = pw] /\ last' = [op |-> "change", user |-> u, pw |-> pw]
                    /\ UNCHANGED <<srv, row, confirmed, since, mirror, dbOut, mconf>>
-SetServer(i, s) == /\ srv[i] # s /\ (dbOut => s # "up") /\ srv' = [srv EXCEPT ![i] = s] /\ last' = [op |-> "server", idx |-> i, state |-> s]
+SetServer(i, s) == /\ srv[i] # s /\ srv' = [srv EXCEPT ![i] = s] /\ last' = [op |-> "server", idx |-> i, state |-> s]
                    /\ UNCHANGED <<dirPw, row, confirmed, since, mirror, dbOut, mconf>>
 \* 96 hours pass
 Older(a) == IF a >= 2 THEN 2 ELSE a + 1
@@ -95,7 +98,7 @@ Sync == /\ ~dbOut
                                        ELSE IF row[u] # NoRow /\ ~row[u].expired THEN row[u] ELSE NoRow]
         /\ mconf' = confirmed
         /\ last' = [op |-> "sync"] /\ UNCHANGED <<dirPw, srv, row, confirmed, since, dbOut>>
-DbOutage == /\ ~dbOut /\ ~AnyAnswers /\ dbOut' = TRUE /\ last' = [op |-> "dboutage"]
+DbOutage == /\ ~dbOut /\ dbOut' = TRUE /\ last' = [op |-> "dboutage"]
             /\ UNCHANGED <<dirPw, srv, row, confirmed, since, mirror, mconf>>
 DbRecover == /\ dbOut /\ dbOut' = FALSE /\ last' = [op |-> "dbrecover"]
              /\ UNCHANGED <<dirPw, srv, row, confirmed, since, mirror, mconf>>
@@ -117,6 +120,6 @@ AcceptedOnlyWhenAllowed == last.op = "login" /\ last.accepted => last.allowed
 \* whenever some server answers, what it says goes - whatever the cache holds
 DirectoryIsFinal == [][(last'.op = "login" /\ AnyAnswers) => (last'.accepted <=> last'.pw = dirPw[last'.user])]_vars
 \* a rejected cached password is evicted
-RejectEvicts == [][(last'.op = "login" /\ AnyAnswers /\ ~last'.accepted /\ row[last'.user].pw = last'.pw /\
+RejectEvicts == [][(last'.op = "login" /\ AnyAnswers /\ ~dbOut /\ ~last'.accepted /\ row[last'.user].pw = last'.pw /\
                     row[last'.user].intact /\ ~row[last'.user].expired) => row'[last'.user] = NoRow]_vars
 =============================================================================
